@@ -168,7 +168,7 @@ pub fn eval_field(doc: &mut Document, field: &str) -> String {
             Ok(format!("{}{},{}", t.toc.len(), t.toc.iter().map(|x| format!(":{}.{}", x.level, x.page)).collect::<String>(), t.errors.len()))
         }),
         // extract_text compared with the composed model (C13 pages/fonts + C09 filters + C14 parser + C16 text loop);
-        // `?` = outside that model: ToUnicode font (C15), UTF-16 Encoding name (encoding_rs), filtered content (flate2 / weezl)
+        // + C15 ToUnicode CMaps); `?` = outside that model: UTF-16 Encoding name (encoding_rs), filtered content / ToUnicode stream (flate2 / weezl)
         "xt" => run_field(|| {
             let pages = doc.get_pages();
             let nums: Vec<u32> = (1..=(pages.len().min(3) as u32)).collect();
@@ -176,7 +176,8 @@ pub fn eval_field(doc: &mut Document, field: &str) -> String {
                 let pid = pages[k];
                 if let Ok(fonts) = doc.get_page_fonts(pid) {
                     for (_, f) in fonts {
-                        if f.has(b"ToUnicode") || matches!(f.get(b"Encoding").and_then(Object::as_name), Ok(b"UniGB-UCS2-H") | Ok(b"UniGB-UTF16-H")) { return Ok("?".into()); }
+                        if matches!(f.get_deref(b"ToUnicode", doc), Ok(Object::Stream(st)) if st.dict.has(b"Filter"))
+                            || matches!(f.get(b"Encoding").and_then(Object::as_name), Ok(b"UniGB-UCS2-H") | Ok(b"UniGB-UTF16-H")) { return Ok("?".into()); }
                     }
                 }
                 for id in doc.get_page_contents(pid) {
@@ -257,8 +258,22 @@ const KEYS: [&str; 36] = ["Type", "Kids", "Parent", "Count", "Contents", "Resour
 const NAMES: [&str; 26] = ["Page", "Pages", "Catalog", "Font", "XObject", "Image", "Form", "GoTo", "GoToR", "URI", "Fit", "XYZ",
     "StandardEncoding", "MacRomanEncoding", "MacExpertEncoding", "WinAnsiEncoding", "PDFDocEncoding", "Identity-H", "Identity-V",
     "UniGB-UCS2-H", "CryptFilter", "V2", "AESV2", "AESV3", "Identity", "DeviceRGB"];
-const CMAP: &[u8] = b"/CIDInit /ProcSet findresource begin 12 dict begin begincmap /CMapName /X def 1 begincodespacerange <00> <FF> endcodespacerange 2 beginbfchar <41> <0041> <42> <0062> endbfchar endcmap end end";
+const CMAP: &[u8] = b"/CIDInit /ProcSet findresource begin\n12 dict begin\nbegincmap\n/CMapName /Adobe-Identity-UCS def\n/CMapType 2 def\n1 begincodespacerange\n<00> <FF>\nendcodespacerange\n2 beginbfchar\n<41> <0041>\n<42> <0062>\nendbfchar\nendcmap\nCMapName currentdict /CMap defineresource pop\nend\nend\n";
 const CONTENT: &[u8] = b"BT /F1 12 Tf (Hello) Tj [(A) -200 (B)] TJ ET BT /F2 9 Tf <4142> Tj ET";
+/// ToUnicode CMap texts (in the shape `cmap_stream` accepts): bfchar / bfrange (incrementing, array), 1-, 2- and 4-byte codes,
+/// ligature and surrogate-pair targets, overlapping definitions, a BOM target, an unpaired surrogate and a target running past
+/// FFFF; damaged ones: a range with end < start (4), a truncated text (5)
+const CMAPS: [&[u8]; 7] = [CMAP,
+    b"/CIDInit /ProcSet findresource begin\n12 dict begin\nbegincmap\n/CMapName /Adobe-Identity-UCS def\n/CMapType 2 def\n1 begincodespacerange\n<0000> <FFFF>\nendcodespacerange\n2 beginbfrange\n<0041> <0043> <0061>\n<0048> <0049> [<00660069> <D83DDE00>]\nendbfrange\n1 beginbfchar\n<0042> <FEFF0058>\nendbfchar\nendcmap\nCMapName currentdict /CMap defineresource pop\nend\nend\n",
+    b"/CIDInit /ProcSet findresource begin\n12 dict begin\nbegincmap\n/CMapName /Adobe-Identity-UCS def\n/CMapType 2 def\n1 begincodespacerange\n<00> <FF>\nendcodespacerange\n2 beginbfrange\n<41> <48> <0030>\n<42> <44> [<0058> <0059>]\nendbfrange\nendcmap\nCMapName currentdict /CMap defineresource pop\nend\nend\n",
+    b"/CIDInit /ProcSet findresource begin\n12 dict begin\nbegincmap\n/CMapName /Adobe-Identity-UCS def\n/CMapType 2 def\n1 beginbfrange\n<41> <42> <00660069>\nendbfrange\n1 beginbfchar\n<48656c6c> <0021>\nendbfchar\nendcmap\nCMapName currentdict /CMap defineresource pop\nend\nend\n",
+    b"/CIDInit /ProcSet findresource begin\n12 dict begin\nbegincmap\n/CMapName /Adobe-Identity-UCS def\n/CMapType 2 def\n1 beginbfrange\n<44> <41> <0030>\nendbfrange\nendcmap\nCMapName currentdict /CMap defineresource pop\nend\nend\n",
+    b"/CIDInit /ProcSet findresource begin\n12 dict begin\nbegincmap\n/CMapName /Adobe-Identity-UCS def\n/CMapType 2 def\n1 beginbfchar\n<41> <00",
+    b"/CIDInit /ProcSet findresource begin\n12 dict begin\nbegincmap\n/CMapName /Adobe-Identity-UCS def\n/CMapType 2 def\n1 beginbfchar\n<41> <DC00>\nendbfchar\n1 beginbfrange\n<42> <48> <FFFE>\nendbfrange\nendcmap\nCMapName currentdict /CMap defineresource pop\nend\nend\n"];
+const CONTENTS: [&[u8]; 4] = [CONTENT,
+    b"BT /F1 12 Tf (Hello ABCH) Tj ET BT /F2 9 Tf <004100420043004800490041> Tj [(AB) -300 <4142>] TJ ET",
+    b"BT /F2 10 Tf (ABCDEFGH) Tj <48656c6c6f> Tj ET /F1 8 Tf [(x) 5 (y)] TJ",
+    b"BT /F1 1 Tf (A) Tj /F2 1 Tf (B\\(C\\)) Tj /F3 1 Tf (D) Tj ET"];
 
 struct Gen<'a> { r: &'a mut Rng, doc: Document, next: u32 }
 impl<'a> Gen<'a> {
@@ -274,9 +289,9 @@ impl<'a> Gen<'a> {
             0 => {}
             1 | 2 => { d.set("Encoding", name("WinAnsiEncoding")); }
             3 => { d.set("Encoding", name(*self.r.pick(&["StandardEncoding", "MacRomanEncoding", "MacExpertEncoding", "PDFDocEncoding"]))); }
-            4 | 5 => { d.set("Encoding", name(*self.r.pick(&["Identity-H", "Identity-V"]))); let t = self.add(stream(Dictionary::new(), CMAP)); d.set("ToUnicode", rf(t)); }
+            4 | 5 => { d.set("Encoding", name(*self.r.pick(&["Identity-H", "Identity-V"]))); let cm = CMAPS[if self.r.chance(1, 7) { 4 + self.r.usize(2) } else { *self.r.pick(&[0usize, 1, 2, 3, 6]) }]; let t = self.add(stream(Dictionary::new(), cm)); d.set("ToUnicode", rf(t)); }
             6 => { d.set("Encoding", name("UniGB-UCS2-H")); }
-            _ => { let t = self.add(stream(Dictionary::new(), CMAP)); d.set("ToUnicode", rf(t)); }
+            _ => { let cm = CMAPS[if self.r.chance(1, 7) { 4 + self.r.usize(2) } else { *self.r.pick(&[0usize, 1, 2, 3, 6]) }]; let t = self.add(stream(Dictionary::new(), cm)); d.set("ToUnicode", rf(t)); }
         }
         Object::Dictionary(d)
     }
@@ -311,8 +326,8 @@ impl<'a> Gen<'a> {
         let mut d = dict(vec![("Type", name("Page")), ("Parent", rf(parent))]);
         match self.r.below(5) {
             0 => {}
-            1 | 2 => { let s = self.add(stream(Dictionary::new(), CONTENT)); let c = if self.r.chance(1, 5) { let s2 = self.add(rf(s)); rf(s2) } else { rf(s) }; d.set("Contents", c); }
-            _ => { let n = 1 + self.r.usize(3); let v: Vec<Object> = (0..n).map(|_| rf(self.add(stream(Dictionary::new(), CONTENT)))).collect();
+            1 | 2 => { let ct = *self.r.pick(&CONTENTS); let s = self.add(stream(Dictionary::new(), ct)); let c = if self.r.chance(1, 5) { let s2 = self.add(rf(s)); rf(s2) } else { rf(s) }; d.set("Contents", c); }
+            _ => { let n = 1 + self.r.usize(3); let v: Vec<Object> = (0..n).map(|_| { let ct = *self.r.pick(&CONTENTS); rf(self.add(stream(Dictionary::new(), ct))) }).collect();
                    let a = self.maybe_ref(Object::Array(v), 25); d.set("Contents", a); }
         }
         if self.r.chance(3, 4) { let res = self.resources(); let ro = self.maybe_ref(Object::Dictionary(res), 50); d.set("Resources", ro); }
